@@ -142,4 +142,60 @@ static inline void ref_mul(word *C, word const *A, int m, int l, int wa, word co
   }
 }
 
+
+/* ---- raw snapshots (every word of the allocation incl. padding words) ---- */
+#ifndef VERIF_H_SNAP
+#define VERIF_H_SNAP
+static inline void vsnap(word *buf, mzd_t const *M) {
+  for (rci_t i = 0; i < M->nrows; ++i)
+    for (wi_t j = 0; j < M->rowstride; ++j) buf[i * M->rowstride + j] = mzd_row_const(M, i)[j];
+}
+/* for windows: only the words the view covers (width words per row) */
+static inline int vsnap_same(word const *buf, mzd_t const *M) {
+  word d = 0;
+  for (rci_t i = 0; i < M->nrows; ++i)
+    for (wi_t j = 0; j < M->rowstride; ++j) d |= buf[i * M->rowstride + j] ^ mzd_row_const(M, i)[j];
+  return d == 0;
+}
+static inline void ref_set(word *ref, int w, int i, int j, word bit) {
+  ref[i * w + j / 64] |= (bit & 1) << (j % 64);
+}
+static inline void ref_zero(word *ref, int n) {
+  for (int i = 0; i < n; ++i) ref[i] = 0;
+}
 #endif
+
+/* ---- concrete pseudo-random / structured fill with a symbolic region (PASSIVE / REGION modes) ---- */
+static uint64_t vlcg_state = 88172645463325252ULL;
+static inline void vlcg_seed(unsigned s) { vlcg_state = 88172645463325252ULL + 7919ULL * s; }
+static inline word vlcg_next(void) {
+  vlcg_state = vlcg_state * 6364136223846793005ULL + 1442695040888963407ULL;
+  uint64_t x = vlcg_state;
+  x ^= x >> 33; x *= 0xff51afd7ed558ccdULL; x ^= x >> 29;
+  return (word)x;
+}
+/* PAT 0 dense random, 1 sparse, 2 zero, 3 all ones, 4 identity */
+static inline word vpat_word(int pat, int i, int j) {
+  word r = vlcg_next();
+  switch (pat) {
+  case 0: return r;
+  case 1: return r & vlcg_next() & vlcg_next();
+  case 2: return 0;
+  case 3: return ~(word)0;
+  default: return (i / 64 == j) ? ((word)1 << (i % 64)) : 0;
+  }
+}
+/* rows [r0,r1) x words [w0,w1) symbolic, everything else concrete pattern */
+static inline void vfill_mixed(mzd_t *M, int pat, int r0, int r1, int w0, int w1) {
+  for (rci_t i = 0; i < M->nrows; ++i) {
+    word *row = mzd_row(M, i);
+    for (wi_t j = 0; j < M->width; ++j) {
+      word c = vpat_word(pat, i, (int)j);
+      word v = (i >= r0 && i < r1 && j >= w0 && j < w1) ? vin_word() : c;
+      if (j == M->width - 1) v &= M->high_bitmask;
+      row[j] = v;
+    }
+  }
+}
+
+#endif /* VERIF_H */
